@@ -320,3 +320,19 @@ _amend("C16", "level", "Complete finite decision for all ordered pairs (quick) a
 _amend("C18", "level", "every call site passes a constant format whose conversions match its values", "every call site passes a constant format whose conversions match its values in number and, where the value is certainly text, in kind")
 _amend("C19", "level", "and the lexer's re-basing on the kept line markers (shared with C10).", "the lexer's re-basing on the kept line markers (shared with C10), and the preprocessor closures keeping nothing from one file to the next (shared with C15).")
 _amend("C20", "level", "and its exact skip conditions (control dependences of the emitting statement).", "its exact skip conditions (control dependences of the emitting statement), and no state kept from one field or object to the next.")
+
+# ---- round 6 (DESIGN 9.11)
+_amend("C08", "level", "UDL fusion", "UDL fusion (the buffer fill interpreted over every short script of raw tokens: fusion of a literal with its '_' suffix, one physical line per call, every raw token kept once with a location)") if "UDL fusion" in CLAIMS["C08"]["level"] else None
+_amend("C13", "level", "opener hand-over and no use of consumed tokens in the five attribute/static_assert consumers,", "opener hand-over and no use of consumed tokens in the five attribute/static_assert consumers, the attribute-specifier sequence continuing with every kind of specifier it handles,")
+_amend("C20", "level", "and no state kept from one field or object to the next.", "no state kept from one field or object to the next, and leaves rendered with repr().")
+_amend("C07", "level", "re-enters the parser once per argument", "re-enters the parser once per argument (the re-parse stream is built at the loop depth at which the argument's tokens are taken)") if "re-enters the parser once per argument" in CLAIMS["C07"]["level"] else None
+_amend("C02", "level", "Restore-on-all-exits of the swapped token source", "Restore-on-all-exits of the swapped token source, nothing taken from the token source kept on the parser,")
+_amend("C17", "level", "every type-id position (parameter, alias) accepting the array suffix format() writes;", "every type-id position (parameter, alias, template argument) accepting the array suffix format() writes, template arguments that format() writes as type-ids tried and kept as types (C02's trial-parse rules under this id);")
+_amend("C09", "level", "the line-splice guard", "the buffer fill interpreted over raw-token scripts (a backslash-NEWLINE pair removed wherever it falls, nothing else), the include handler's compressing pattern covering the blanks the lexer rule admits,") if "the line-splice guard" in CLAIMS["C09"]["level"] else None
+_amend("C08", "level", "UDL fusion (the buffer fill", "user-defined-literal fusion (the buffer fill")
+_amend("C08", "level", "with a location) facts,", "with a location),")
+_amend("C07", "level", "the template-argument trial parse is attempted once.", "the template-argument trial parse is attempted once (one re-parse stream, built at the loop depth at which the argument's tokens are taken).")
+_amend("C09", "level", "CRLF normalisation, splice guard,", "CRLF normalisation, the buffer fill interpreted over raw-token scripts (a backslash-NEWLINE pair removed wherever it falls and nothing else), the include handler's compressing pattern covering the blanks the lexer rule admits,")
+_amend("C06", "level", "message prefix flows from the token's location)", "message prefix flows from the token's location; an error raised by parse()'s own loop carries a token known to exist there)")
+_amend("C11", "level", "and no separator (',' ';' '}') before it.", "no separator (',' ';' '}') before it, and nothing fetched after a function body has been skipped.")
+_amend("C01", "level", "per-iteration flag re-initialisation and namespace walk,", "per-iteration flag re-initialisation and namespace walk, the #include operand cut out exactly as the lexer rule admits it (shared with C09),")
